@@ -283,7 +283,12 @@ class Gen:
         if not lead and self.rng.random() < 0.8:
             lead = b" "
         tail = self.rng.choice([b"", b"", b" ", b"\t"]) if body else b""
-        text = name + b":" + lead + body + tail
+        # RFC 822 section 3.4.2 / RFC 2822 obs-fields: blanks and tabs between the field name and the colon
+        pre = b""
+        if self.rng.random() < 0.1:
+            pre = self.rng.choice([b" ", b"\t", b" \t", b"\t ", b"  "])
+            self.features.add("space-before-colon")
+        text = name + pre + b":" + lead + body + tail
         # a folded field must not end in a white-space-only line
         while text.endswith((b"\n ", b"\n\t", b"\n")):
             text = text[:-1]
